@@ -10,7 +10,7 @@
 (* names = the parser's reported variable names; auto = keys of the        *)
 (* default variable map after setting the template with auto-variables.    *)
 (***************************************************************************)
-EXTENDS Mustache, Json, TLC
+EXTENDS Mustache, Json, TLC, Held
 CONSTANT Check
 VARIABLE l
 Trace == ndJsonDeserialize("trace.ndjson")
@@ -49,7 +49,7 @@ Init == l = 1
 Next ==
   /\ l <= Len(Trace)
   /\ l' = l + 1
-  /\ LET f == Fails(Trace[l]) IN f = "" \/ PrintT("VERIF-FAIL " \o ToString(l) \o " " \o f)
+  /\ LET f == Fails(Trace[l]) IN Report(l, f, Trace[l])
 Spec == Init /\ [][Next]_l
 Accepted == TLCGet("stats").diameter - 1 = Len(Trace)
 =============================================================================
